@@ -687,6 +687,73 @@ func c13LeaveJoin() (out explore.SchedOutcome) {
 	return out
 }
 
+// c13Order (E-SCHED): one user changes its name twice in a row, then leaves; an observer that applies the
+// notifications in the order it receives them must end up with the server's list - i.e. notices about
+// one user reach each recipient in the order they were issued.
+func c13Order(leave bool) func() explore.SchedOutcome {
+	return func() (out explore.SchedOutcome) {
+		vrt.BeginSetup()
+		wd := world.New(world.Cfg{Accounts: c13Accounts, Agreement: "agree?"})
+		defer wd.Close()
+		probe, r := wd.Connect("10.9.9.9:999", "probe", "pp", "probe")
+		x, rx := wd.Connect("10.0.0.2:2", "user", "u", "start")
+		if r == nil || rx == nil || r.Err != 0 || rx.Err != 0 {
+			out.Violations = append(out.Violations, explore.SchedV{Signature: "C13/setup", Detail: "logins failed"})
+			return out
+		}
+		roster := map[uint16]ref.UserInfo{}
+		for _, u := range wd.UserList(probe) {
+			roster[u.ID] = u
+		}
+		probe.New()
+		x.Send(ref.Tx{Type: ref.TSetClientUserInfo, Fields: []ref.Fld{ref.FS(ref.FUserName, "first"), ref.F16(ref.FUserIconID, 5)}})
+		x.Send(ref.Tx{Type: ref.TSetClientUserInfo, Fields: []ref.Fld{ref.FS(ref.FUserName, "second"), ref.F16(ref.FUserIconID, 6)}})
+		if leave {
+			x.Hangup()
+		}
+		vrt.EndSetup()
+		vrt.WaitQuiet()
+		for _, t := range probe.New() {
+			switch t.Type {
+			case ref.TNotifyChangeUser:
+				if d, _ := t.Get(ref.FUserID); len(d) == 2 {
+					u := ref.UserInfo{ID: uint16(d[0])<<8 | uint16(d[1]), Name: fieldStr(&t, ref.FUserName)}
+					if ic, ok := t.Get(ref.FUserIconID); ok {
+						for _, b := range ic {
+							u.Icon = u.Icon<<8 | uint16(b)
+						}
+					}
+					if old, ok := roster[u.ID]; ok {
+						u.Flags = old.Flags
+					}
+					roster[u.ID] = u
+				}
+			case ref.TNotifyDeleteUser:
+				if d, _ := t.Get(ref.FUserID); len(d) == 2 {
+					delete(roster, uint16(d[0])<<8|uint16(d[1]))
+				}
+			}
+		}
+		var folded, fresh []string
+		for _, u := range roster {
+			folded = append(folded, fmt.Sprintf("%d/%s/%d", u.ID, u.Name, u.Icon))
+		}
+		for _, u := range wd.UserList(probe) {
+			fresh = append(fresh, fmt.Sprintf("%d/%s/%d", u.ID, u.Name, u.Icon))
+		}
+		sort.Strings(folded)
+		sort.Strings(fresh)
+		if strings.Join(folded, ",") != strings.Join(fresh, ",") {
+			out.Violations = append(out.Violations, explore.SchedV{Signature: "C13/order/folded-roster-differs-from-fresh-list", Detail: fmt.Sprintf("a user renamed itself 'first', then 'second' (leave=%v): the observer applying its notifications in arrival order holds %v, the server lists %v", leave, folded, fresh)})
+		}
+		for _, pn := range vrt.S.Panics() {
+			out.Violations = append(out.Violations, explore.SchedV{Signature: "C13/order/panic/" + vrt.PanicSite(pn), Detail: pn})
+		}
+		out.Canon = strings.Join(folded, ",")
+		return out
+	}
+}
+
 // c13Full: all 65,535 ids are held by connected users and one more connection registers: the
 // registration returns, and no two registered users share an id (the extra one cannot get one).
 func c13Full(w *explore.Worker) {
@@ -743,6 +810,9 @@ func runC13(w *explore.Worker) {
 		bound = 2
 	}
 	explore.ExploreSchedules(w, explore.SchedConfig{Harness: "C13concurrent", Params: "", Bound: bound, FreeCost: 1, MaxSteps: 20000, Suspend: true}, c13Concurrent)
+	for _, leave := range []bool{false, true} {
+		explore.ExploreSchedules(w, explore.SchedConfig{Harness: "C13order", Params: fmt.Sprint(leave), Bound: bound, FreeCost: 1, MaxSteps: 20000, Suspend: true}, c13Order(leave))
+	}
 }
 
 func replayC13(w *explore.Worker, raw json.RawMessage) {
@@ -756,6 +826,9 @@ func replayC13(w *explore.Worker, raw json.RawMessage) {
 		body := c13Concurrent
 		if sr.Harness == "C13leavejoin" {
 			body = c13LeaveJoin
+		}
+		if sr.Harness == "C13order" {
+			body = c13Order(sr.Params == "true")
 		}
 		_, out, err := explore.RunSchedule(sr.Choices, 20000, body)
 		if err != nil {
